@@ -46,7 +46,8 @@ Definition on_name_confirmed (name : bstr) (p : provst) : provst * list eff :=
   let '(p1, e1) := if pv_confirmed p then farewell p else (set_prov p (pv_initialized p) true, []) in
   let p2 := set_proposed p1 (pv_browseP p1) (set_target name (pv_ptrP p1)) (set_name name (pv_srvP p1)) (set_name name (pv_txtP p1)) in
   let '(p3, e3) := publish p2 in
-  (p3, e1 ++ e3).
+  (* the proposals go back to the requested name (a later re-probe starts from it again) *)
+  (set_proposed p3 (pv_browseP p1) (pv_ptrP p1) (pv_srvP p1) (pv_txtP p1), e1 ++ e3).
 
 (* ProviderPrivate::onMessageReceived *)
 Definition prov_on_message (p : provst) (m : message) : list eff :=
